@@ -94,6 +94,10 @@ def bind_check(pname, style, tname, pattern):
             del prov.__dict__['paramstyle']
         detail.update(sql=sql, args=args)
         q, a = dm.bind_placeholders(sql, args, style)
+        if style == 'named':
+            # drivers with named binds (cx_Oracle) reject bind values that no placeholder uses
+            used = set(re.findall(r':([A-Za-z_]\w*)', dm._LIT.sub('', sql)))
+            if used != set(args): raise ValueError('bind names supplied %s, placeholders used %s' % (sorted(args), sorted(used)))
         if pname == 'oracle': q = re.sub(r'\s+FROM DUAL\b', ' ', q)
         rows = scratch().execute(q, a).fetchall()
         detail['rows'] = rows
@@ -523,14 +527,16 @@ def ident_part(sub, pos, names):
                 if not c: continue
                 rr = ident_check(pos, c)
                 if rr is not None and rr[0] == 'violation' and rr[1] == what: m, changed = c, True; break
-        sig = 'ident|%s|name=%s|%s' % (pos, json.dumps(m), what)
+        badpos = [p for p in POSITIONS if (ident_check(p, m) or (None, None))[:2] == ('violation', what)]
+        sig = 'ident|positions=%s|name=%s|%s' % ('all' if len(badpos) == len(POSITIONS) else '+'.join(badpos), json.dumps(m), what)
         sub.violation(sig, dict(part='ident', position=pos, name=name, minimal=m, detail=r[2]),
                       '%s name %r: %s: %s' % (pos, name, what, json.dumps(r[2], default=repr)[:300]))
 
+DIALECT_QUOTE = {'sqlite': '"', 'postgres': '"', 'oracle': '"', 'mysql': '`'}   # MySQL default sql_mode: "..." is a string
 def quote_part(sub, names):
     for pname in PROVIDERS:
         prov = provider(pname)
-        qc = prov.quote_char
+        qc = DIALECT_QUOTE[pname]       # the dialect's rule, not what the provider believes
         for name in names:
             for arg in (name, (name, 'a' + name)):
                 sub.count('evaluations'); sub.count('quote_name_cases')
@@ -545,8 +551,8 @@ def quote_part(sub, names):
                 else:
                     try:
                         got = lib.lex_quoted_name(text, qc)
-                        if got != want: problem = 're-lexes to %r' % (got,)
-                    except lib.LexError as e: problem = str(e)
+                        if got != want: problem = 'does not re-lex to the name: %r' % (got,)
+                    except lib.LexError as e: problem = 'does not re-lex to the name: %s' % e
                 if problem:
                     sig = 'quote_name|%s|%s|%s' % (pname, 'name contains ' + qc if qc in name else 'name', problem.split(':')[0][:60])
                     sub.violation(sig, dict(part='quote', provider=pname, name=arg if isinstance(arg, str) else list(arg), output=text),
@@ -644,6 +650,6 @@ def replay(ctx, case):
         text = prov.quote_name(arg)
         print(case['provider'], repr(arg), '->', text)
         if case['provider'] == 'oracle' and '"' in json.dumps(case['name']).replace('\\"', '\x00')[1:-1].replace('"', '').replace('\x00', '"'): return False
-        try: return lib.lex_quoted_name(text, prov.quote_char) == ([arg] if isinstance(arg, str) else list(arg))
+        try: return lib.lex_quoted_name(text, DIALECT_QUOTE[case['provider']]) == ([arg] if isinstance(arg, str) else list(arg))
         except lib.LexError: return False
     return True
